@@ -105,6 +105,58 @@ impl C07 {
     }
 }
 
+impl C07 {
+    /// cumulative coverage inside one call and across calls, forbidden message first/middle/last
+    fn directed(&self, h: &mut Hist) {
+        use cosmwasm_std::{coin, BankMsg, StakingMsg};
+        let pl = crate::cw20w::pool();
+        let (admin, sub, to) = (pl.actors[0].clone(), pl.actors[1].clone(), pl.actors[2].clone());
+        let mut p = Proxy::new(&mut h.rng, Kind::Subkeys);
+        if !p.instantiate(vec![admin.clone()], true).is_ok() {
+            return;
+        }
+        let mut pre = p.snap();
+        let send = |amt: u128, d: &str| -> CosmosMsg { BankMsg::Send { to_address: to.clone(), amount: vec![coin(amt, d)] }.into() };
+        let burn: CosmosMsg = BankMsg::Burn { amount: vec![coin(1, "uatom")] }.into();
+        let dele: CosmosMsg = StakingMsg::Delegate { validator: "val".into(), amount: coin(1, "uatom") }.into();
+        let exp = match h.idx % 2 {
+            0 => None,
+            _ => Some(crate::cw20w::Exp::H(p.w.block.height + 50)),
+        };
+        let mut script: Vec<(String, Op)> = vec![
+            (admin.clone(), Op::Inc { spender: sub.clone(), coin: ("uatom".into(), 10), exp }),
+            (admin.clone(), Op::Inc { spender: sub.clone(), coin: ("ubtc".into(), 5), exp: None }),
+            (admin.clone(), Op::SetPerm { spender: sub.clone(), perm: Perm { delegate: true, ..Default::default() } }),
+            // each send is within the allowance, together they exceed it
+            (sub.clone(), Op::Execute { msgs: vec![send(6, "uatom"), send(6, "uatom")] }),
+            (sub.clone(), Op::Execute { msgs: vec![send(6, "uatom"), send(4, "uatom")] }),
+            (sub.clone(), Op::Execute { msgs: vec![send(1, "uatom")] }),
+            (sub.clone(), Op::Execute { msgs: vec![send(2, "ubtc"), dele.clone(), send(3, "ubtc")] }),
+            (sub.clone(), Op::Execute { msgs: vec![send(1, "ubtc")] }),
+        ];
+        if h.idx >= 2 {
+            script = vec![
+                (admin.clone(), Op::Inc { spender: sub.clone(), coin: ("uatom".into(), 10), exp }),
+                (admin.clone(), Op::SetPerm { spender: sub.clone(), perm: Perm { delegate: true, ..Default::default() } }),
+                (sub.clone(), Op::Execute { msgs: vec![burn.clone(), send(1, "uatom")] }),
+                (sub.clone(), Op::Execute { msgs: vec![send(1, "uatom"), burn.clone(), send(1, "uatom")] }),
+                (sub.clone(), Op::Execute { msgs: vec![send(1, "uatom"), dele.clone(), burn.clone()] }),
+                (to.clone(), Op::Execute { msgs: vec![burn.clone()] }),
+                (to.clone(), Op::Execute { msgs: vec![dele.clone()] }),
+                (sub.clone(), Op::Execute { msgs: vec![send(5, "uatom"), send(5, "uatom"), send(1, "uatom")] }),
+                (sub.clone(), Op::Execute { msgs: vec![send(5, "uatom"), dele, send(5, "uatom")] }),
+                (sub.clone(), Op::Execute { msgs: vec![send(1, "uatom")] }),
+            ];
+        }
+        for (s, o) in script {
+            if !self.step(h, &mut p, &mut pre, &s, &o) {
+                return;
+            }
+        }
+        h.out.count("directed_scenarios_completed");
+    }
+}
+
 impl Monitor for C07 {
     fn id(&self) -> &'static str {
         "C07"
@@ -113,7 +165,7 @@ impl Monitor for C07 {
         "cwv-direct"
     }
     fn histories(&self, tier: Tier) -> u64 {
-        tier.pick(500, 60_000)
+        tier.pick(500, 600_000)
     }
     fn mandatory(&self) -> Vec<&'static str> {
         vec![
@@ -133,6 +185,7 @@ impl Monitor for C07 {
             "msgkind_gov_refused",
             "msgkind_any_refused",
             "msgkind_distribution_other_refused",
+            "directed_scenarios_completed",
         ]
     }
     fn rule(&self) -> &'static str {
@@ -145,6 +198,10 @@ impl Monitor for C07 {
         ]
     }
     fn run_history(&self, h: &mut Hist) {
+        if h.idx < 4 {
+            self.directed(h);
+            return;
+        }
         let kind = if h.idx % 2 == 0 { Kind::Whitelist } else { Kind::Subkeys };
         let mut p = Proxy::new(&mut h.rng, kind);
         let (admins, mutable) = gen_admins(&mut h.rng);
